@@ -387,7 +387,8 @@ def run_builder(ctx):
                        "valid configurations with 0-2 mutations; every accepted session driven %d frames. "
                        "non-trivial = distinct accepted scenarios + distinct scenarios rejected after at least one accepted call"
                        % (maxlen, len(ALPHA_QUICK), ("length 4 over the same alphabet and length 4-5 over %d calls; " % len(ALPHA_DEEP)) if ctx.thorough else "", FRAMES))
-    ctx.cov["exhaustive"] = "bounded: sequence length and value domains as stated; the Coq theorem covers all lengths and values"
+    ctx.cov["exhaustive"] = False
+    ctx.cov["exhaustive_note"] = "bounded: sequence length and value domains as stated; the Coq theorem covers all lengths and values"
     ctx.assumptions += [
         "arguments are unsigned (usize/u32/Duration) — hypothesis `Forall usize_call cs` of C16_builder_spec",
         "DEFAULT_SAVE_MODE=false and DEFAULT_DETECTION_MODE=Off are written in the model (not numeric constants); "
